@@ -24,7 +24,9 @@ func (c11) ID() string    { return "C11" }
 func (c11) Level() string { return "exploration" }
 func (c11) Rule() string {
 	return "case = (expression, input text, input format, output format, eval|eval-all); expressions from five generators " +
-		"(structured full-vocabulary trees, token soup, mutated structured, mutated soup, raw bytes); inputs are valid/truncated/" +
+		"(structured full-vocabulary trees, token soup, mutated structured, mutated soup, raw bytes; every 100th case: family anchor-graph, " +
+		"a YAML document whose anchors form a random graph with names defined again and self-containing anchors, several entries routed " +
+		"through one explode, checked against the generator's own reachability verdict under a 64 MB stack limit); inputs are valid/truncated/" +
 		"spliced/bit-flipped/random texts of all ten input formats. Non-trivial = the case got past the parser (parse succeeded) " +
 		"or reached a decoder with non-empty input; distinct by (expression skeleton with literals collapsed, formats, input hash)."
 }
@@ -56,6 +58,9 @@ type c11Case struct {
 	Out    string `json:"out"`
 	All    bool   `json:"eval_all"`
 	Source string `json:"generator"`
+	// anchor-graph family only: what the reference verdict demands, and the shape tags of the document
+	Law   string   `json:"law,omitempty"`
+	Shape []string `json:"shape,omitempty"`
 }
 
 // c11GlobCase: a wildcard pattern with many `*` against a long name made of the pattern's own literal, with a tail that
@@ -93,6 +98,9 @@ func c11Gen(w *mon.Worker, idx int) c11Case {
 	r := w.Rand(idx)
 	if idx%2000 == 77 {
 		return c11GlobCase(r)
+	}
+	if idx%100 == 33 {
+		return c11AnchorCase(r)
 	}
 	var c c11Case
 	switch r.IntN(10) {
@@ -152,6 +160,9 @@ func (p c11) Run(w *mon.Worker, idx int) mon.Result {
 		return c11CLICase(w, idx)
 	}
 	c := c11Gen(w, idx)
+	if c.Source == "anchor-graph" {
+		return c11RunAnchorCase(c)
+	}
 	res := mon.Result{Case: c, Evals: 1}
 	_, perr, ppan := yqx.Parse(c.Expr)
 	var out string
